@@ -183,6 +183,10 @@ func init() {
 					}
 				}
 				outs = append(outs, res)
+			case it == "fork":
+				// the rest of the script runs on a fork of the board, as every search launched by the engine does
+				b = b.Fork()
+				outs = append(outs, "forked")
 			case it == "pop":
 				m, ok := b.PopMove()
 				outs = append(outs, optMove(m, ok))
@@ -343,6 +347,15 @@ func genC03(o *Out, r *rand.Rand, thorough bool) {
 		emit([]string{"full-static", "nup-static", "full-quiet~"}[i%3], fen.Initial, h, []string{fmt.Sprintf("s:%d:%s:0", 1+i%2, fullWin)})
 		o.Count("history:repetition")
 	}
+	// the same kind of history searched on a FORK of the game board (the engine's way): the position right after the last
+	// irreversible move (here: the set-up position) has occurred twice, a move in the tree brings it about a third time
+	for i, h := range []string{"m:g1f3 m:g8f6 m:f3g1 m:f6g8 m:g1f3 m:g8f6 m:f3g1", "m:b1c3 m:b8c6 m:c3b1 m:c6b8 m:b1c3 m:b8c6 m:c3b1",
+		"m:e2e4 m:e7e5 m:g1f3 m:g8f6 m:f3g1 m:f6g8 m:g1f3 m:g8f6 m:f3g1"} {
+		for d := 1; d <= 2; d++ {
+			emit([]string{"full-static", "nup-static", "full-quiet~"}[i%3], fen.Initial, append(strings.Split(h, " "), "fork"), []string{fmt.Sprintf("s:%d:%s:0", d, fullWin)})
+			o.Count("history:repetition-on-a-fork")
+		}
+	}
 	// draws that arise exactly at the search horizon (capture into insufficient material, the clock
 	// reaching 100, a third occurrence completed by the last ply)
 	for _, h := range []struct {
@@ -374,12 +387,22 @@ func genC03(o *Out, r *rand.Rand, thorough bool) {
 			o.Count("history:dead-position-below-horizon")
 		}
 	}
+	// one move mates, every other allows a mate: a forced win and a forced loss meet in one comparison
+	for _, f := range []string{"6k1/5ppp/8/8/8/5pPq/5P1P/1n2RRK1 w - - 0 1", "1N2rrk1/5p1p/5PpQ/8/8/8/5PPP/6K1 b - - 0 1"} {
+		emit("full-static", f, nil, []string{"s:3:" + fullWin + ":0"})
+		emit("full-quiet", f, nil, []string{"s:2:" + fullWin + ":0"})
+		o.Count("history:mate-for-and-against")
+	}
 	emit("full-static", "r3k2r/8/8/8/8/8/8/R3K2R w KQkq - 98 60", []string{"m:e1g1"}, []string{"s:2:" + fullWin + ":0"})
 	emit("full-static", "4k3/8/8/8/8/8/4p3/R3K3 w Q - 99 60", nil, []string{"s:3:" + fullWin + ":0"})
 	for i := 0; i < n; i++ {
 		start, moves, b := randomLine(r, 24)
 		cfg := pickCfg(r, b)
 		d := pickDepth(r, b, thorough, strings.HasSuffix(cfg, "quiet"))
+		if r.Intn(3) == 0 {
+			moves = append(append([]string{}, moves...), "fork")
+			o.Count("searched-on-a-fork")
+		}
 		emit(cfg, start, moves, []string{fmt.Sprintf("s:%d:%s:0", d, fullWin)})
 		o.Count(fmt.Sprintf("depth:%d", d))
 	}
